@@ -28,6 +28,14 @@ def sh(cmd, **kw):
     return subprocess.run(cmd, capture_output=True, text=True, **kw)
 
 
+# (git stash is shared between the worktrees of one repository: never used here; the agent's CHANGE.diff is the reference)
+change = os.path.join(wt, "CHANGE.diff")
+if not os.path.exists(change):
+    sys.exit("no CHANGE.diff in the worktree")
+sh(["git", "checkout", "--", "src"], cwd=wt)
+r = sh(["git", "apply", "CHANGE.diff"], cwd=wt)
+if r.returncode != 0:
+    sys.exit("CHANGE.diff does not apply to a clean worktree: " + r.stderr[:300])
 diff = sh(["git", "diff", "--", "src"], cwd=wt).stdout
 if not diff.strip():
     sys.exit("no source change in the worktree")
@@ -37,11 +45,11 @@ meta["repo_tests_with_change"] = (t.stdout.strip().splitlines() or ["?"])[-1]
 d1 = sh(["/venv/bin/python", "demo.py"], cwd=wt, env=env)
 meta["demo_with_change_exit"] = d1.returncode
 meta["demo_with_change_output"] = (d1.stdout + d1.stderr)[-600:]
-sh(["git", "stash", "push", "--", "src"], cwd=wt)
+sh(["git", "apply", "-R", "CHANGE.diff"], cwd=wt)
 try:
     d0 = sh(["/venv/bin/python", "demo.py"], cwd=wt, env=env)
 finally:
-    sh(["git", "stash", "pop"], cwd=wt)
+    sh(["git", "apply", "CHANGE.diff"], cwd=wt)
 meta["demo_without_change_exit"] = d0.returncode
 meta["checks"] = {}
 for p in [a.prop] + [x for x in a.also.split(",") if x]:
